@@ -63,3 +63,61 @@ def f16_alias_captured(v):
                 if any(n[0] == 'q' and n[2] == e[2] for n in mast.walk(e[3])):
                     return True
     return False
+
+
+def f12_sibling_binders(v):
+    """Two quantifiers that are not nested in one another bind the same name over domains of different element types (finding F12)."""
+    inp = v.input
+    if not isinstance(inp, dict) or 'rejected:type' not in v.sig:
+        return False
+    m = inp.get('m')
+    if m is None:
+        return False
+    m = core.detuple(m)
+    conds = []
+    if m[0] == 'prop':
+        for _role, ev in mast.event_positions(m):
+            for e in mast.simple_events(ev):
+                if e[3] is not None:
+                    conds.append(e[3])
+    else:
+        conds.append(m)
+    for c in conds:
+        binders = {}
+        for n in mast.walk(c):
+            if n[0] == 'q':
+                binders.setdefault(n[2], []).append(n)
+        for name, qs in binders.items():
+            if len(qs) >= 2 and len({_dom_kind(q) for q in qs}) >= 2:
+                return True
+    return False
+
+
+def _dom_kind(q):
+    """Coarse element type of a quantifier: from how the bound variable is used in its body."""
+    var = ('var', q[2])
+    body = q[4]
+    kinds = set()
+    for n in mast.walk(body):
+        if n[0] == 'bin' and (n[2] == var or n[3] == var):
+            other = n[3] if n[2] == var else n[2]
+            if n[1] in ('<', '<=', '>', '>=', '+', '-', '*', '/', '**'):
+                kinds.add('N')
+            elif n[1] in ('and', 'or', 'implies', 'iff'):
+                kinds.add('B')
+            elif other[0] == 'lit':
+                kinds.add({'int': 'N', 'float': 'N', 'str': 'S', 'bool': 'B'}[other[1]])
+            elif n[1] == 'in' and n[2] == var and n[3][0] == 'set' and n[3][1] and n[3][1][0][0] == 'lit':
+                kinds.add({'int': 'N', 'float': 'N', 'str': 'S', 'bool': 'B'}[n[3][1][0][1]])
+        if n[0] == 'un' and n[2] == var:
+            kinds.add('B' if n[1] == 'not' else 'N')
+        if n[0] == 'call' and n[2] == var and n[1] == 'abs':
+            kinds.add('N')
+    if body == var:
+        kinds.add('B')
+    d = q[3]
+    if d[0] == 'range':
+        kinds.add('N')
+    if d[0] == 'set' and d[1] and d[1][0][0] == 'lit':
+        kinds.add({'int': 'N', 'float': 'N', 'str': 'S', 'bool': 'B'}[d[1][0][1]])
+    return ''.join(sorted(kinds)) or '?' + repr(d)
